@@ -16,6 +16,7 @@ mod git_commit_parser;
 mod pos_conv;
 // --- harness ---
 mod common;
+mod rules2;
 mod prules;
 mod leaves;
 mod c02typst;
@@ -127,6 +128,7 @@ fn main() {
         "C12" => c12::run(&ctx),
         "LEAVES" => leaves::run(&ctx),
         "PRULES" => prules::run(&ctx),
+        "RULES2" => rules2::run(&ctx),
         _ => {
             eprintln!("unknown property {}", prop);
             std::process::exit(2);
